@@ -64,6 +64,29 @@ fn main() {
         i += 1;
     }
     det::install_panic_hook(std::env::var("VCHECK_PANIC_VERBOSE").is_err());
+    if let Some(file) = replay.clone() {
+        // DX replay files carry a choice vector; every other engine's file names the case: the check is re-run in a scratch
+        // output directory (with no finding listed as known) and reports whether the recorded key shows up again
+        let text = std::fs::read_to_string(&file).unwrap_or_default();
+        let v: serde_json::Value = serde_json::from_str(&text).unwrap_or(serde_json::Value::Null);
+        if v["replay"]["choices"].is_null() {
+            let Some(key) = v["key"].as_str() else {
+                eprintln!("{file}: not a replay file");
+                std::process::exit(2);
+            };
+            let out = format!("{}/scratch/replay-{}", report::verif_dir(), std::process::id());
+            let _ = std::fs::create_dir_all(format!("{out}/evidence"));
+            let _ = std::fs::create_dir_all(format!("{out}/replays"));
+            let _ = std::fs::write(format!("{out}/KNOWN_FINDINGS.json"), "{\"comment\": \"replay\", \"findings\": []}");
+            // SAFETY: single-threaded at this point
+            unsafe {
+                std::env::set_var("VERIF_OUT", &out);
+                std::env::set_var("VCHECK_REPLAY_KEY", key);
+            }
+            println!("REPLAY: re-running {id} ({:?}) for key {key}; recorded detail: {}", tier, v["detail"].as_str().unwrap_or(""));
+            replay = None;
+        }
+    }
     if let Some(file) = replay {
         let code = match id.as_str() {
             "C01" => props::c01::replay(&file),
